@@ -270,6 +270,9 @@ def splitBar (toks : List String) : List (List String) :=
     | last :: rest => rest.reverse ++ [last ++ [t]]
     | [] => [[t]]) [[]]
 
+/-- how a connection that goes away appears among the tasks of a concurrent block (no client message has this type) -/
+def hangup : Req := .unknown 4294967295
+
 /-- `conc n sched=.. | c req.. | c req..`: the tasks (connection, consumed request) -/
 def parseConc (toks : List String) : Option (List (Nat × Option Req)) :=
   match splitBar toks with
@@ -277,6 +280,7 @@ def parseConc (toks : List String) : Option (List (Nat × Option Req)) :=
     tasks.mapM fun t =>
       match t with
       | [c, "none"] => c.toNat?.map fun c => (c, none)
+      | [c, "hangup"] => c.toNat?.map fun c => (c, some hangup)   -- the connection goes away instead of handling a message
       | c :: rest => do
         let c ← c.toNat?
         let r ← parseAll req rest
@@ -302,7 +306,7 @@ def serialRun (cfg : Cfg) (srv : Server) (ds : List Delivery) (order : List (Nat
     Except String (Server × List (IEv × List Delivery × Outcome)) :=
   order.foldlM (fun (acc : Server × List (IEv × List Delivery × Outcome)) (t : Nat × Option Req) =>
     let (srv, steps) := acc
-    let iev := IEv.handle t.1 t.2 (hintOf t.1 ds)
+    let iev := if t.2 == some hangup then IEv.disconnect t.1 else IEv.handle t.1 t.2 (hintOf t.1 ds)
     match toModelEvent srv iev with
     | .error m => .error m
     | .ok ev =>
@@ -352,6 +356,7 @@ def processConc (h : Hist) (b : Block) (otoks : List String) : Hist :=
         | some (.join _ _ .new) => some (t.1, Registry.Req.joinNew)
         | some (.join _ _ (.id n)) => some (t.1, Registry.Req.joinId n)
         | some (.join _ _ .bogus) => some (t.1, Registry.Req.joinId 1000000007)
+        | some (.unknown 4294967295) => some (t.1, Registry.Req.disconnect)
         | _ => none
       if h.blind || rtasks.length != tasks.length then h else
       let outs := Registry.explore rtasks (Registry.fromServer h.srv)
@@ -417,7 +422,8 @@ def processConc (h : Hist) (b : Block) (otoks : List String) : Hist :=
       let viol := h.concViol
       -- C02 under concurrency: every accepted change of the block is relayed exactly once to every member of the sender's
       -- session that neither joins nor leaves within the block (no flag is set in these histories)
-      let movers := tasks.filterMap fun (t : Nat × Option Req) => match t.2 with | some (.join ..) => some t.1 | _ => none
+      let movers := tasks.filterMap fun (t : Nat × Option Req) =>
+        match t.2 with | some (.join ..) => some t.1 | some (.unknown 4294967295) => some t.1 | _ => none
       let relayIssues : List String := if !h.cfg.flags.isEmpty then [] else tasks.flatMap fun (t : Nat × Option Req) =>
         match h.srv.locate t.1, t.2 with
         | some (s, _), some r =>
